@@ -27,6 +27,15 @@ Per case:
                   reader-malformed : mutated files, ok/reject and block (ties the error paths of the reader model)
                   wf-theorem  : when the captured molecule meets the hypotheses `WF` of `C11_roundtrip`
                                 the real round trip must hold (the theorem's claim on the real code)
+                  writer-text : CHARACTER level (Model/C11Lex.lean): the model's file text == the text the real
+                                writer wrote, character for character (citation lines as a multiset)
+                  reader-text-itp / -top / -flat : model `readItp ∘ lexLine` on the CHARACTERS of the real
+                                file == the block the real reader returned (no harness lexer in between)
+                  lexer       : model `lexLine` == real `split_comments` + real `ITPDirector.dispatch` /
+                                `parse_header`: EXHAUSTIVE over all lines of length <= 4 (thorough: 5) over the lexer's eight
+                                character classes, random longer lines, every line of every written file
+                  text-theorem: when `WF` and `tokensOk` hold, lexing the model's text gives the model's
+                                token lines (claim of `C11_lex_render`), evaluated by the driver
   oracle (Lean specification on the real output)
                   not-written : mapping and link application passed but no file / gen_params raised
                   reread-refused : the written file is refused by one of polyply's readers
@@ -51,7 +60,8 @@ RULE = ("(a) generated force fields: 1-3 blocks of 1-6 atoms, chain bonds or con
         "18 interaction sections writer and readers share, metas ifdef/ifndef/group/comment/version, links "
         "for a random subset of ordered residue-name pairs (bond + optional angle/dihedral/pair/exclusion, "
         "guards), optional `[ citations ]` with a user .bib (non-ASCII authors) and sometimes a key no .bib "
-        "defines, non-ASCII command line in the header, linear sequences of 1-6 residues or branched json graphs; (b) every library in "
+        "defines, optional `[ modification ]` of the force field's own, non-ASCII command line in the header, linear sequences "
+        "of 1-6 residues or branched json graphs (resids from 0, 1 or 4); (b) every library in "
         "polyply/data x sequences X:3, X:2 Y:1, X:1 Y:2 for blocks in links; (c) malformed files for the "
         "reader model.  Non-trivial = the file was written and holds >= 2 residues or >= 1 guarded "
         "interaction; distinct = hash of (force-field text | library, sequence)")
@@ -229,6 +239,16 @@ def gen_case(rng, index, thorough):
         text += gen_link(rng, res_a, blocks[res_a], res_b, blocks[res_b], thorough) + [""]
     nres = rng.choice([1, 2, 2, 3, 3, 4, 5, 6] if thorough else [1, 2, 2, 3, 3, 4])
     files = {}
+    # choices added later draw from a derived stream so that the cases of a given seed stay what they were
+    import random as _random
+    extra = _random.Random("c11-extra|%d|%r" % (index, rng.getstate()[1][:4]))
+    if extra.random() < 0.3:
+        # a force field that defines its own [ modification ] (end-group patches of a polymer force field, as
+        # martini3/modifications.ff does for proteins); gen_params patches the default protein termini when no
+        # modification is requested, which must leave non-protein residues alone
+        mod_name = extra.choice(["END-cap", "ter1", "N-ter", "OH-ter", "zwitter"])
+        text += ["[ modification ]", mod_name, "[ atoms ]",
+                 '%s {"replace": {"atype": "%s"}}' % (blocks[resnames[0]][0], extra.choice(ATYPES)), ""]
     if rng.random() < 0.3:
         # force-field wide citations: keys a user .bib defines (non-ASCII author names, as in the shipped
         # libraries) and, sometimes, a key no loaded .bib defines (a .ff given without its .bib)
@@ -250,9 +270,19 @@ def gen_case(rng, index, thorough):
             else:
                 seq.append([res, 1])
         spec["seq"] = ["%s:%d" % (r, n) for r, n in seq]
+        if extra.random() < 0.3:
+            # the same linear sequence handed over as a json residue graph, numbered from 0, 1 or an offset
+            first = extra.choice([0, 0, 1, 4])
+            flat = [r for r, n in seq for _ in range(n)]
+            del spec["seq"]
+            spec["seq_json"] = {"directed": False, "multigraph": False, "graph": {},
+                                "nodes": [{"id": i, "resname": r, "resid": i + first} for i, r in enumerate(flat)],
+                                "edges": [{"source": i - 1, "target": i} for i in range(1, len(flat))]}
     else:
         # a branched residue graph: random tree, parent always has the lower key
-        nodes = [{"id": i, "resname": rng.choice(resnames), "resid": i + 1} for i in range(nres)]
+        # residue ids of the requested graph: contiguous from 1, from 0 (the boundary value) or from an offset
+        first = extra.choice([0, 0, 1, 1, 4])
+        nodes = [{"id": i, "resname": rng.choice(resnames), "resid": i + first} for i in range(nres)]
         edges = [{"source": rng.randrange(i), "target": i} for i in range(1, nres)]
         spec["seq_json"] = {"directed": False, "multigraph": False, "graph": {}, "nodes": nodes, "edges": edges}
     return io_variation(rng, spec)
@@ -354,6 +384,24 @@ def canon_lines(lines):
     return out
 
 
+def text_lines(text):
+    """the lines of a file as `readlines()` delivers them, without the line terminator"""
+    parts = text.split("\n")
+    return parts[:-1] if text.endswith("\n") else parts
+
+
+def canon_text(lines):
+    """the characters of the file; only the citation lines of the header (iteration order of a set, no part
+    of the property) are compared as a multiset"""
+    lines = list(lines)
+    first = next((i for i, l in enumerate(lines) if l.startswith("[")), len(lines))
+    start = next((i for i, l in enumerate(lines[:first]) if l.startswith("; Please cite")), None)
+    if start is not None:
+        end = next((i for i in range(start + 1, first) if not lines[i].startswith(";")), first)
+        lines[start + 1:end] = sorted(lines[start + 1:end])
+    return lines
+
+
 def canon_block(block):
     """block JSON (real or model) -> comparable form: sections as a dict of lists (file order kept)"""
     return dict(name=block.get("name"), nrexcl=block.get("nrexcl"),
@@ -421,6 +469,11 @@ def run_case(spec):
         case["lines"] = lines
         ask("read_itp", dict(op="read", lines=lines, via="itp"))
         ask("read_top", dict(op="read", lines=lines, via="top"))
+        raw_lines = text_lines(res["text"])
+        case["raw_lines"] = raw_lines
+        # the whole file as ONE string: the model cuts it into lines itself (`splitLines`)
+        ask("read_text_itp", dict(op="read_text", file=res["text"], via="itp"))
+        ask("read_text_top", dict(op="read_text", file=res["text"], via="top"))
         for via in ("top", "itp", "flat"):
             got = res.get(via)
             if got and got["ok"]:
@@ -483,6 +536,16 @@ def judge(ctx, case, answers):
         model_lines = canon_lines(tail["lines"]) if tail["ok"] else None
         ctx.correspond("writer", impl_lines, model_lines, replay)
         ctx.traces += 1
+        # character level: the text itself
+        impl_text = canon_text(text_lines(res["text"])) if res.get("written") and "write" in passed else None
+        model_text = canon_text(tail["text"]) if tail["ok"] and tail.get("text") is not None else None
+        ctx.correspond("writer-text", impl_text, model_text, replay)
+        if model_text is not None:
+            # `joinLines`: every line followed by a line feed, nothing else
+            ctx.correspond("writer-file", "".join(l + "\n" for l in tail["text"]), tail.get("file"), replay)
+        if tail["ok"] and tail.get("wf") and tail.get("tokens_ok"):
+            ctx.correspond("text-theorem", tail.get("lex_roundtrip"), True, replay)
+        ctx.tally(tokens_ok=bool(tail.get("tokens_ok")) if tail["ok"] else None)
 
     # ---- (2) the readers accept the file and return the same molecule
     if res.get("written"):
@@ -495,6 +558,9 @@ def judge(ctx, case, answers):
                 impl["name"], impl["nrexcl"] = cap.get("moltype"), got.get("nrexcl")
             mod = canon_block(model["block"]) if model["ok"] else None
             ctx.correspond("reader-" + via, impl, mod, replay)
+            model_t = ans("read_text_itp" if via == "itp" else "read_text_top")
+            if model_t is not None:
+                ctx.correspond("reader-text-" + via, impl, canon_block(model_t["block"]) if model_t["ok"] else None, replay)
             if not got["ok"]:
                 report(ctx, (why_kind(tail.get("why")) if tail else None) or "reread-refused", "the file gen_params wrote is refused by %s: %s (%s); input %s"
                                 % ({"top": "Topology.from_gmx_topfile (through #include)", "itp": "MetaMolecule.from_itp",
@@ -523,7 +589,14 @@ def judge(ctx, case, answers):
                 ctx.correspond("resgraph", impl_graph, model_graph, replay)
                 if cap.get("missing") == [] and not iso["iso"]:
                     hyps = iso["hyps"]
-                    shape = ("residue-with-two-resnames" if not hyps["nodes_ok"] else
+                    # the known library typo: ONE residue id of the built molecule carries two residue names; any
+                    # other mismatch of the residues (e.g. shifted ids) is not that shape
+                    names_of = {}
+                    for atom in (mol["atoms"] if mol else []):
+                        names_of.setdefault(atom["resid"], set()).add(atom["resname"])
+                    two_names = any(len(v) > 1 for v in names_of.values())
+                    shape = ("residue-with-two-resnames" if not hyps["nodes_ok"] and two_names else
+                             "resgraph-not-isomorphic" if not hyps["nodes_ok"] else
                              "edge-without-bond" if not hyps["realised"] else
                              "bond-between-non-neighbours" if not hyps["only_adjacent"] else "resgraph-not-isomorphic")
                     report(ctx, shape, "no link is missing but the residue graph recovered from the "
@@ -632,12 +705,87 @@ def malformed_stream(ctx, texts):
                 impl["name"], impl["nrexcl"] = name, ff.blocks[name].nrexcl
             except Exception:  # pylint: disable=broad-except
                 impl = None
-        todo.append((kind, mutated, impl, dict(op="read", lines=lexed, via="itp")))
-    answers = ctx.driver.ask([t[3] for t in todo])
-    for (kind, mutated, impl, _), model in zip(todo, answers):
+        todo.append((kind, mutated, impl, dict(op="read", lines=lexed, via="itp"),
+                     dict(op="read_text", file=mutated, via="itp")))
+    answers = ctx.driver.ask([t[3] for t in todo] + [t[4] for t in todo])
+    for (kind, mutated, impl, _, _), model, model_t in zip(todo, answers[:len(todo)], answers[len(todo):]):
         mod = canon_block(model["block"]) if model["ok"] else None
         ctx.correspond("reader-malformed", impl, mod, dict(kind="malformed", mutation=kind, text=mutated))
+        mod_t = canon_block(model_t["block"]) if model_t["ok"] else None
+        ctx.correspond("reader-text-malformed", impl, mod_t, dict(kind="malformed", mutation=kind, text=mutated))
         ctx.tally(malformed=kind, malformed_accepted=impl is not None)
+
+
+# ------------------------------------------------------------------------------------------------ the lexer against the real one
+
+LEX_ALPHABET = ["a", "B", "#", "[", "]", ";", " ", "\t"]     # one character per class the lexer distinguishes
+LEX_EXTRA = ["\n", "\r", "\x0b", "\x0c", "*", "1", ".", "-", "\"", "_", "/", "X", "é"]
+
+
+def real_lex(raw):
+    """what the real reader makes of one physical line: `LineParser.parse` (split_comments, skip when empty),
+    `ITPDirector.dispatch` (which bound method), `parse_header` (the section name it computes), `line.split()`"""
+    import vermouth.forcefield
+    from vermouth.parser_utils import split_comments
+    from vermouth.gmx.itp_read import ITPDirector
+    director = ITPDirector(vermouth.forcefield.ForceField("verif_lex"))
+    line, _ = split_comments(raw, director.COMMENT_CHAR)
+    if not line:
+        return dict(k="skip")
+    try:
+        method = director.dispatch(line)
+    except IOError:
+        return dict(k="x")
+    name = method.__name__
+    if name == "parse_header":
+        director.parse_header(line)
+        return dict(k="h", n=director.section[-1])
+    if name == "parse_pragma":
+        return dict(k="p", t=line.split())
+    return dict(k="d", t=line.split())
+
+
+def canon_lexed(line):
+    if line["k"] in ("b", "c"):
+        return dict(k="skip")
+    if line["k"] == "x":
+        return dict(k="x")
+    if line["k"] == "h":
+        return dict(k="h", n=line["n"])
+    return dict(k=line["k"], t=line["t"])
+
+
+def lexer_stream(ctx, texts):
+    import itertools
+    rng = ctx.rng
+    lines = []
+    depth = 5 if ctx.thorough else 4
+    for n in range(depth + 1):
+        for tup in itertools.product(LEX_ALPHABET, repeat=n):
+            lines.append("".join(tup))
+    exhaustive = len(lines)
+    pool = LEX_ALPHABET * 2 + LEX_EXTRA
+    for _ in range(ctx.budget(1500, 30000)):
+        lines.append("".join(rng.choice(pool) for _ in range(rng.randint(6, 24))))
+    seen = set(lines)
+    file_lines = 0
+    for _, text in texts:
+        for raw in text_lines(text):
+            if raw not in seen:
+                seen.add(raw)
+                lines.append(raw)
+                file_lines += 1
+    answers = ctx.driver.ask([dict(op="lex", lines=lines)])[0]["lines"]
+    for raw, model in zip(lines, answers):
+        ctx.correspond("lexer", real_lex(raw), canon_lexed(model), dict(kind="lex", line=raw))
+        # the comment text the token model keeps (no reader looks at it): partition at the first ';'
+        if model["k"] in ("c", "d"):
+            cmt = raw.partition(";")
+            want = cmt[2].strip(" \t\n\r\x0b\x0c") if cmt[1] else None
+            got = model.get("t") if model["k"] == "c" else model.get("c")
+            ctx.correspond("lexer-comment", want, got, dict(kind="lex", line=raw))
+    ctx.tally(lexer_lines_exhaustive="exhaustive: all %d lines of length <= %d over %r" % (exhaustive, depth, LEX_ALPHABET),
+              lexer_lines_random=len(lines) - exhaustive - file_lines, lexer_lines_from_files=file_lines)
 
 
 # ------------------------------------------------------------------------------------------------ tables
@@ -708,7 +856,10 @@ def run(ctx):
     ctx.extra["trusted"] = [
         "vermouth 0.15 write_molecule_itp / ITPDirector and polyply's TOPDirector are MODELLED at token level "
         "(Model/ItpIO.lean); tied each run by the writer / reader-itp / reader-top / reader-malformed streams",
-        "character level of the file (padding, str(x), split(), split_comments, strip('[ ]').casefold()) = harness lexer",
+        "character level of the file (padding, split(), split_comments, strip('[ ]').casefold()) is MODELLED "
+        "(Model/C11Lex.lean) and tied by the writer-text / lexer / reader-text-* streams; whitespace = the six ASCII "
+        "blanks (Python also strips \\x1c-\\x1f, \\x85, \\xa0 and the Unicode spaces); str(x) of a number is the "
+        "harness's token",
         "int()/float() of tokens modelled by String.toNat? / identity; numeric tokens compared after float()",
         "the minimal .top around the written file (#include, [ system ], [ molecules ]) is the harness's",
     ]
@@ -729,6 +880,7 @@ def run(ctx):
     texts = [(c["res"]["captured"]["moltype"], c["res"]["text"]) for c in cases
              if c["res"].get("written") and c["res"]["captured"].get("moltype")]
     malformed_stream(ctx, texts[:200])
+    lexer_stream(ctx, texts[:400])
     pending = ctx.extra.get("pending_findings")
     if pending:
         ctx.extra["explanation"] += ("; inputs showing shapes of notes/C11_findings.md were met and not judged "
@@ -745,7 +897,11 @@ def replay(ctx, data):
                 inputs.append(item["input"])
     else:
         inputs.append(data.get("input") or data)
-    specs = [i for i in inputs if i.get("kind") not in ("malformed", "table")]
+    specs = [i for i in inputs if i.get("kind") not in ("malformed", "table", "lex")]
     run_specs(ctx, specs)
+    for item in inputs:
+        if item.get("kind") == "lex":
+            model = ctx.driver.ask([dict(op="lex", lines=[item["line"]])])[0]["lines"][0]
+            ctx.correspond("lexer", real_lex(item["line"]), canon_lexed(model), item)
     for b in ctx.broken:
         print("REPLAY-DISAGREES", b["name"], b["detail"][:400])
